@@ -178,14 +178,14 @@ def case_fn(case):
     common("correct_force_offset", before, after, {"force"})
     d = after["force"] - before["force"]
     nchecks += 1
-    if d.max() - d.min() > 4 * ulp(before["force"]):
+    if not d.max() - d.min() <= 4 * ulp(before["force"]):
         viol("force-offset-constant", "correct_force_offset",
              f"force changed by a non-constant: spread {d.max() - d.min():.3e}")
     idp = poc.compute_poc(np.array(before["force"], copy=True),
                           "deviation_from_baseline")
     if idp:
         m = abs(np.mean(after["force"][:idp]))
-        if m > 8 * ulp(before["force"]):
+        if not m <= 8 * ulp(before["force"]):
             viol("force-offset-mean", "correct_force_offset", "mean "
                  f"pre-contact force is {m:.3e} after the correction "
                  f"(estimated contact index {idp})")
@@ -205,7 +205,7 @@ def case_fn(case):
         common(f"correct_tip_offset:{meth}", before, after, {"tip position"})
         d = after["tip position"] - before["tip position"]
         nchecks += 1
-        if d.max() - d.min() > 4 * ulp(before["tip position"]):
+        if not d.max() - d.min() <= 4 * ulp(before["tip position"]):
             viol("tip-offset-constant", f"correct_tip_offset:{meth}",
                  f"tip position changed by a non-constant: spread "
                  f"{d.max() - d.min():.3e}")
@@ -254,7 +254,7 @@ def case_fn(case):
         s1 = np.linalg.lstsq(A, f1[:idp], rcond=None)[0][0]
         span = abs(absc[idp - 1] - absc[0]) + 1e-300
         frange = np.max(np.abs(f0)) + 1e-300
-        if abs(s1) > 1e-6 * abs(s0) + 1e-9 * frange / span:
+        if not abs(s1) <= 1e-6 * abs(s0) + 1e-9 * frange / span:
             viol("slope-trend", name, f"baseline slope after correction "
                  f"{s1:.3e} (before {s0:.3e})")
         corr = f0 - f1
@@ -262,7 +262,7 @@ def case_fn(case):
             jump = abs(corr[end - 1])
             step = abs(s0) * abs(absc[end] - absc[end - 1]) \
                 if end < n0 else 0
-            if jump > step + 1e-9 * frange:
+            if not jump <= step + 1e-9 * frange:
                 viol("slope-jump", name, f"jump of {jump:.3e} N at the end "
                      f"of the corrected region (allowed {step:.3e})")
         # what is subtracted is the fitted line (up to a constant)
@@ -270,7 +270,7 @@ def case_fn(case):
                                       else idp])
         dev = np.max(np.abs((corr[:end] - corr[:end].mean())
                             - (lin - lin.mean())))
-        if dev > 1e-6 * abs(s0) * span + 1e-9 * frange:
+        if not dev <= 1e-6 * abs(s0) * span + 1e-9 * frange:
             viol("slope-trend", name + ":line", "the subtracted correction "
                  f"is not the fitted baseline line (max dev {dev:.3e})")
     # 5. segment discovery
